@@ -87,6 +87,8 @@ def _digest(atoms, mc, energy):
 
 
 def run_mc_once(case, seed, gstate, noise, reuse=False):
+    if noise and 0 <= seed < 2 ** 63 and gstate % 2 == 0:
+        seed = np.int64(seed)  # the second run gets the same integer as a numpy scalar (seeds drawn from arrays)
     scn = dict(case["scn"], seed=seed)
     np.random.seed(gstate)
     random.seed(gstate)
